@@ -608,7 +608,7 @@ pub fn build(plan: &Plan) -> Model {
         } else {
             let certs = match &plan.cfg.tls {
                 Some(t) if t.cert && plan.cfg.tls_require_cert => {
-                    Some(vec![crate::tlsfix::client_cert().to_vec()])
+                    Some(t.presented_chain())
                 }
                 _ => None,
             };
